@@ -242,7 +242,7 @@ func (c *Ctx) checkCopy(rule string, fi *load.FuncInfo, root ast.Node, dst, src 
 func c18(c *Ctx) {
 	r := c.R
 	r.Explanation = "Structural completeness and agreement of the hand-written codecs (same kind of claim as C03). (F1) robust.Message <-> pb.RobustMessage: ProtoMessage, CopyToProtoMessage and the protobuf branch of NewMessageFromBytes each copy every field (except the json:\"-\" recipient set) from the like-named field, the enum values agree, and the id defaults to the raft index only under the zero test; (F2) raft.Log <-> pb.RaftLog: every encoder and decoder copy in the module (Apply, StoreLogs, ConvertToProto x2, GetLog, raftlog.FromBytes, Snapshot, canary, log dump) copies all six fields from the like-named field with the matching conversion; (F3) framing: every protobuf value written gets the one-byte 'p' marker that every reader strips ([1:]); (F4) the output-store batch codec: the writer's and the reader's scripts (ordered items, widths, byte order, loops, cursor increments) are equal and the size pre-computation sums the same items. Value-level round-trip equality for all inputs is not decided."
-	r.Rules = []string{"C18.F1 robust.Message codec", "C18.F2 raft.Log codec copies", "C18.F3 framing agreement", "C18.F4 output batch codec symmetry", "C18.F5 textual ids", "C18.F6 error discipline of the message codec"}
+	r.Rules = []string{"C18.F1 robust.Message codec", "C18.F2 raft.Log codec copies", "C18.F3 framing agreement", "C18.F4 output batch codec symmetry", "C18.F5 textual ids", "C18.F6 error discipline of the message codec", "C18.F7 standard JSON encoding of replicated types"}
 
 	goMsg := c.P.Named("robust", "Message")
 	goID := c.P.Named("robust", "Id")
@@ -449,6 +449,24 @@ func c18(c *Ctx) {
 	}
 
 	c.errorDispositions("C18.F6", []string{"robust"}, nil, "bytes that do not decode are taken for a message")
+	// ---------- F7: the legacy JSON form of the replicated values is encoding/json's own struct encoding, on every node and
+	// in every version: the types of package robust (and raft.Log, which is not ours) carry no hand-written JSON / text /
+	// binary (un)marshalling methods — one that goes through float64 or a different spelling changes what old entries decode to
+	for _, fi := range c.P.FuncsIn("robust") {
+		if fi.Obj == nil {
+			continue
+		}
+		sig, _ := fi.Obj.Type().(*types.Signature)
+		if sig == nil || sig.Recv() == nil {
+			continue
+		}
+		switch fi.Obj.Name() {
+		case "MarshalJSON", "UnmarshalJSON", "MarshalText", "UnmarshalText", "MarshalBinary", "UnmarshalBinary", "GobEncode", "GobDecode":
+			r.Fail("C18.F7", fi.Name(), "replicated types use the standard JSON struct encoding", c.P.Pos(fi.Node().Pos()),
+				"a hand-written "+fi.Obj.Name()+" on a type of package robust changes how legacy JSON log entries and snapshots decode (numbers through float64 lose ids above 2^53; a different spelling is not understood by older nodes): the same bytes no longer decode to the same message on every node")
+		}
+	}
+	r.Ok("C18.F7", "robust", "no hand-written JSON/text/binary codec methods on replicated types", "-", "methods of package robust inspected")
 	// ---------- F6: error discipline of the message codec
 	{
 		nErr := 0
